@@ -345,6 +345,10 @@ func (f *Frame) instrWrites(in ssa.Instruction, w *WriteSet) {
 	case *ssa.MapUpdate:
 		d, v := mapHeaps(f.ctx, x.Map.Type().Underlying().(*types.Map))
 		w.Heaps[d], w.Heaps[v], w.Heaps[mapLenHeap(f.ctx, x.Map.Type().Underlying().(*types.Map))] = true, true, true
+	case *ssa.Next:
+		if hn := f.rangeSeenHeap(x); hn != "" {
+			w.Heaps[hn] = true
+		}
 	case *ssa.Call:
 		if f.framedNoModsCall(x.Common()) {
 			// the callee changes no object that exists before the call: the cells of the objects
@@ -1146,7 +1150,7 @@ func (f *Frame) havocState(st *State, w *WriteSet, why string) *State {
 			f.heap(st, "G_"+name)
 		}
 		for k, v := range st.heaps {
-			if strings.HasPrefix(k, "G_held|") || (strings.HasPrefix(k, "G_") && !w.Heaps[k]) {
+			if strings.HasPrefix(k, "G_held|") || ((strings.HasPrefix(k, "G_") || strings.HasPrefix(k, rangeSeenPrefix)) && !w.Heaps[k]) {
 				out.heaps[k] = v
 			}
 		}
@@ -1269,7 +1273,7 @@ func (f *Frame) frameFacts(before, after *State, guard string, modObjs []string)
 }
 
 func (f *Frame) frameFact1(k, hb, ha, alloc, guard string, modObjs []string) {
-	if strings.HasPrefix(k, "G_") {
+	if strings.HasPrefix(k, "G_") || strings.HasPrefix(k, rangeSeenPrefix) {
 		return // ghost heaps are not keyed by addresses; contracts state their own frames
 	}
 	cond := fmt.Sprintf("(< (pobj p) %s)", alloc)
